@@ -86,28 +86,34 @@ Theorem C34_ip_key_eq_iff : forall a b, wf_addr a -> wf_addr b ->
 Proof. exact ip_key_eq_iff. Qed.
 Print Assumptions C34_ip_key_eq_iff.
 
+(* stated for the code's key function (impl_ip_key = ipKey as it is after fix commit 2006028) *)
 Theorem C34_ip_key_on_texts : forall s1 s2 a1 a2,
   parse_addr s1 = Some a1 -> parse_addr s2 = Some a2 ->
-  (spec_ip_key s1 = spec_ip_key s2 <-> key_of_addr (strip_zone a1) = key_of_addr (strip_zone a2)) /\
-  spec_ip_key s1 <> None.
-Proof. exact spec_ip_key_groups. Qed.
+  (impl_ip_key s1 = impl_ip_key s2 <-> key_of_addr (strip_zone a1) = key_of_addr (strip_zone a2)) /\
+  impl_ip_key s1 <> None.
+Proof. exact impl_ip_key_groups. Qed.
 Print Assumptions C34_ip_key_on_texts.
+
+Theorem C34_ip_key_impl_is_spec : forall s, impl_ip_key s = spec_ip_key s.
+Proof. exact ip_key_impl_is_spec. Qed.
+Print Assumptions C34_ip_key_impl_is_spec.
 
 Theorem C34_unparsable_never_limited : forall s, parse_addr s = None -> spec_ip_key s = None /\ impl_ip_key s = None.
 Proof. exact spec_ip_key_none. Qed.
 Print Assumptions C34_unparsable_never_limited.
 
-(* Finding C34-1: the code (impl_ip_key, net.ParseIP) gives no key to an address with a zone, so such a
-   peer is never limited; off that trigger the code is what the property demands. *)
-Theorem C34_ip_key_zone_refuted : exists s,
-  zone_trigger s = true /\ impl_ip_key s = None /\ spec_ip_key s <> None /\
+(* Finding C34-1 (FIXED by commit 2006028), kept as facts about the PRE-FIX code prefix_ip_key
+   (net.ParseIP): it gave no key to an address with a zone, so such a peer was never limited; off that
+   trigger it was what the property demands.  The judge treats a recurrence as a violation. *)
+Theorem C34_prefix_ip_key_zone_refuted : exists s,
+  zone_trigger s = true /\ prefix_ip_key s = None /\ spec_ip_key s <> None /\
   spec_ip_key s = spec_ip_key [102; 101; 56; 48; 58; 58; 49]%N.
-Proof. exact ip_key_zone_refuted. Qed.
-Print Assumptions C34_ip_key_zone_refuted.
+Proof. exact prefix_ip_key_zone_refuted. Qed.
+Print Assumptions C34_prefix_ip_key_zone_refuted.
 
-Theorem C34_impl_ip_key_eq_spec_off_trigger : forall s, zone_trigger s = false -> impl_ip_key s = spec_ip_key s.
-Proof. exact impl_ip_key_eq_spec_off_trigger. Qed.
-Print Assumptions C34_impl_ip_key_eq_spec_off_trigger.
+Theorem C34_prefix_ip_key_eq_spec_off_trigger : forall s, zone_trigger s = false -> prefix_ip_key s = spec_ip_key s.
+Proof. exact prefix_ip_key_eq_spec_off_trigger. Qed.
+Print Assumptions C34_prefix_ip_key_eq_spec_off_trigger.
 
 (* ---------- non-vacuity ---------- *)
 (* 45 points, 5 of which expire first (head = 5 when the ring fills), three resizes (cap 64), sum 0+..+39 *)
